@@ -41,17 +41,23 @@ def main():
     summary = []
     try:
         for m in muts:
-            name, file, old, new = m[:4]
+            name = m[0]
+            edits = m[1] if isinstance(m[1], list) else [tuple(m[1:4])]
             d = os.path.join(base, "repo")
             if os.path.exists(d):
                 shutil.rmtree(d)
             subprocess.run(["rsync", "-a", "--exclude", ".git", "/repo/", d + "/"], check=True)
-            p = os.path.join(d, file)
-            s = open(p).read()
-            if old not in s:
+            missing = False
+            for (file, old, new) in edits:
+                p = os.path.join(d, file)
+                s = open(p).read()
+                if old not in s:
+                    missing = True
+                    break
+                open(p, "w").write(s.replace(old, new, 1))
+            if missing:
                 summary.append((name, "SKIP(old text not found)", []))
                 continue
-            open(p, "w").write(s.replace(old, new, 1))
             b = subprocess.run(["go", "build", "./..."], cwd=d, env=ENV, capture_output=True, text=True)
             if b.returncode != 0:
                 summary.append((name, "NOBUILD " + b.stderr.strip().splitlines()[-1][:100], []))
